@@ -136,14 +136,29 @@ Definition ser_var (tv : tvar) (v : option wval) (fill : bool) : option (list N)
       else None
   end.
 
-(* length-checked read with an N count that is compared before it is turned into a nat *)
+(* reader.read_bytes(n): the first n bytes and the rest, None (ValueError) when fewer are left.
+   Same function as Base.Bytes.take (lemma rd_take), written as one pass so that the
+   extracted model does not measure the whole remaining buffer for every variable. *)
+Fixpoint rd (n : nat) (l : list N) : option (list N * list N) :=
+  match n with
+  | O => Some ([], l)
+  | S k =>
+      match l with
+      | [] => None
+      | x :: r => match rd k r with Some (a, b) => Some (x :: a, b) | None => None end
+      end
+  end.
+
+(* the same with an N count; a count that cannot be a template length (above 0xFFFF) is
+   compared with the buffer length before it is turned into a unary number *)
 Definition takeN (n : N) (l : list N) : option (list N * list N) :=
-  if N.of_nat (length l) <? n then None else take (N.to_nat n) l.
+  if 65535 <? n then (if N.of_nat (length l) <? n then None else rd (N.to_nat n) l)
+  else rd (N.to_nat n) l.
 
 (* _parse_var up to and including TemplateDataPacker.unpack *)
 Definition parse_var (q : bool) (tv : tvar) (buf : list N) : option (wval * list N) :=
   match (if vtype_is_varlen (vty tv)
-         then match take (vsize tv) buf with
+         then match rd (vsize tv) buf with
               | Some (p, r) => Some (of_le p, r)
               | None => None
               end
@@ -453,7 +468,7 @@ Definition parse_body_rest_q (q : bool) (d : dict) (m : msg) : option (msg * lis
           match find_name d (m_name m) with
           | None => None
           | Some t =>
-              match take (freq_len (mfreq t) + length (m_extra m)) buf with   (* reader.seek *)
+              match rd (freq_len (mfreq t) + length (m_extra m)) buf with   (* reader.seek *)
               | None => None
               | Some (_, buf1) =>
                   match parse_blocks q (mblocks t) buf1 with
